@@ -462,3 +462,65 @@ def fd_concurrency():
                                        "leave two sibling states active at once (forced interleaving)"}],
             "domain": "writes to StateMachine._current_state (AST) + one forced two-thread schedule", "size": 1, "exhaustive": False,
             "samples": [{"schedule": "A suspended between leave() and the write of _current_state"}]}
+
+
+@fd("C18", "region-assumptions")
+def fd_region_assumptions():
+    """What contracts/C18_machine.py assumes about the heap region of State objects (valid_tree), checked on the source and on
+    the shipped machines: `_parent` is assigned only in State.__init__ (so a parent exists before its child: the links are
+    acyclic and never change), every parent of a state of a shipped machine is a State, and the depth along the links is
+    finite and strictly decreasing."""
+    import ast
+    import os
+    import secsgem
+    root = os.path.dirname(secsgem.__file__)
+    writes = []
+    for dirpath, _dirs, files in os.walk(root):
+        for fn in files:
+            if not fn.endswith(".py"):
+                continue
+            path = os.path.join(dirpath, fn)
+            tree = ast.parse(open(path).read())
+            for cls in [n for n in ast.walk(tree) if isinstance(n, ast.ClassDef)]:
+                for f in [n for n in cls.body if isinstance(n, (ast.FunctionDef, ast.AsyncFunctionDef))]:
+                    for n in ast.walk(f):
+                        targets = []
+                        if isinstance(n, ast.Assign):
+                            targets = n.targets
+                        elif isinstance(n, (ast.AugAssign, ast.AnnAssign)):
+                            targets = [n.target]
+                        elif isinstance(n, ast.Delete):
+                            targets = n.targets
+                        for t in targets:
+                            for a in ast.walk(t):
+                                if isinstance(a, ast.Attribute) and a.attr == "_parent":
+                                    writes.append((os.path.relpath(path, root), cls.name, f.name, n.lineno))
+            for n in ast.walk(tree):
+                if isinstance(n, ast.Call) and isinstance(n.func, ast.Name) and n.func.id in ("setattr", "delattr") and len(n.args) >= 2 \
+                        and isinstance(n.args[1], ast.Constant) and n.args[1].value == "_parent":
+                    writes.append((os.path.relpath(path, root), "?", n.func.id, n.lineno))
+    outside = [w for w in writes if (w[0].replace(os.sep, "/"), w[1], w[2]) != ("common/state_machine.py", "State", "__init__")]
+    obs = [{"name": "parent-link-assigned-only-in-State.__init__", "ok": not outside and len(writes) == 1,
+            "witness": {"writes": writes}, "detail": "the parent link of a State must be fixed at construction (acyclicity and the frame 'links unchanged' of the contracts rest on it)"}]
+    bad = None
+    total = 0
+    from bounded.harness import virtual_timers
+    from secsgem.hsms.settings import HsmsSettings
+    for mname, cls in shipped().items():
+        with virtual_timers():
+            m = cls(HsmsSettings()) if mname == "gem-communication" else cls()
+        states = all_states(m)
+        for s in states:
+            total += 1
+            depth, cur, seen = 0, s, set()
+            while cur is not None and id(cur) not in seen:
+                seen.add(id(cur))
+                if cur.parent is not None and not isinstance(cur.parent, State):
+                    bad = {"machine": mname, "state": s.name, "parent": repr(cur.parent)}
+                cur = cur.parent
+                depth += 1
+            if cur is not None:
+                bad = {"machine": mname, "state": s.name, "cycle": True}
+    obs.append({"name": "shipped-machines-are-valid-trees", "ok": bad is None, "witness": bad, "detail": "every parent chain of a shipped machine ends at a root"})
+    return {"obligations": obs, "domain": "all assignments / deletions of an attribute `_parent` in the secsgem package; all State objects of the three shipped machines",
+            "size": len(writes) + total, "exhaustive": True, "samples": [{"writes": writes}]}
